@@ -85,8 +85,13 @@ def c05_all(ctx):
     links_stage(ctx)  # lib/checks_helpers.py: error type and path fields of Symlink / Lstat failures
 
 
+def c07_stages(ctx):
+    sub_stages(ctx)
+    trace_stage(ctx)  # recorded executions incl. Sub views of mem and of os.FS, judged as file systems of their own
+
+
 CHECKS.update({
-    "C07": sub_stages,
+    "C07": c07_stages,
     "C02": c02_stages,
     "C16": c16_stages,
     "C17": c02_stages,
